@@ -179,17 +179,43 @@ func checkC19(ctx *Ctx) *Result {
 	}
 	for _, ys := range sites {
 		desc := "yield @" + p.Pos(ys.Call.Pos())
+		var starts []*cfg.Block
+		var bad string
 		if !ys.IsCond {
-			r.fail("R19.1", desc, p.Pos(ys.Call.Pos()), "the result of yield is not the condition of a branch: a consumer's break cannot stop the iteration here")
-			continue
-		}
-		falseSucc := ys.Block.Succs[1]
-		if ys.Negate {
-			falseSucc = ys.Block.Succs[0]
+			// the result is not branched on. That is harmless iff nothing more
+			// can be produced after the call whatever it returned: a discarded
+			// result (expression statement) followed only by the way out.
+			discarded := false
+			after := false
+			for _, nd := range ys.Block.Nodes {
+				if after {
+					ast.Inspect(nd, func(m ast.Node) bool {
+						if c, ok := m.(*ast.CallExpr); ok && (isYield(c) || isAllCall(c)) {
+							bad = "after a yield whose result is discarded, the same block produces more"
+						}
+						return true
+					})
+				}
+				if es, ok := nd.(*ast.ExprStmt); ok && es.X == ast.Expr(ys.Call) {
+					discarded, after = true, true
+				} else if e, ok := nd.(ast.Expr); ok && e == ast.Expr(ys.Call) {
+					discarded, after = true, true
+				}
+			}
+			if !discarded {
+				r.fail("R19.1", desc, p.Pos(ys.Call.Pos()), "the result of yield is neither the condition of a branch nor discarded right before the way out: a consumer's break cannot be seen to stop the iteration here")
+				continue
+			}
+			starts = ys.Block.Succs
+		} else {
+			falseSucc := ys.Block.Succs[1]
+			if ys.Negate {
+				falseSucc = ys.Block.Succs[0]
+			}
+			starts = []*cfg.Block{falseSucc}
 		}
 		// reachability from the `false` edge
 		seen := map[*cfg.Block]bool{}
-		var bad string
 		var walk func(b *cfg.Block)
 		walk = func(b *cfg.Block) {
 			if seen[b] || bad != "" {
@@ -204,7 +230,9 @@ func checkC19(ctx *Ctx) *Result {
 				walk(s)
 			}
 		}
-		walk(falseSucc)
+		for _, b := range starts {
+			walk(b)
+		}
 		r.check(bad == "", "R19.1", desc, p.Pos(ys.Call.Pos()), bad, len(seen))
 	}
 	if len(sites) < 2 {
@@ -241,6 +269,144 @@ func checkC19(ctx *Ctx) *Result {
 		}
 		return true
 	})
+	// the same dispatch written as a comma-ok assertion:
+	//   j, ok := err.(interface{ Unwrap() []error }); if !ok { leaf } ...
+	isJoinIface := func(t types.Type) bool {
+		it, _ := t.Underlying().(*types.Interface)
+		return it != nil && it.NumMethods() == 1 && it.Method(0).Name() == "Unwrap" &&
+			types.TypeString(it.Method(0).Type().(*types.Signature).Results(), nil) == "([]error)"
+	}
+	var okObj types.Object
+	var okAssign *ast.AssignStmt
+	nOkAssign := 0
+	if tswitch == nil {
+		ast.Inspect(lit.Body, func(n ast.Node) bool {
+			if _, isLit := n.(*ast.FuncLit); isLit {
+				return false
+			}
+			as, ok := n.(*ast.AssignStmt)
+			if !ok || len(as.Lhs) != 2 || len(as.Rhs) != 1 {
+				return true
+			}
+			ta, ok := as.Rhs[0].(*ast.TypeAssertExpr)
+			if !ok || ta.Type == nil {
+				return true
+			}
+			id, ok := ta.X.(*ast.Ident)
+			if !ok || !alias[info.Uses[id]] || !isJoinIface(info.TypeOf(ta.Type)) {
+				return true
+			}
+			j, _ := as.Lhs[0].(*ast.Ident)
+			k, _ := as.Lhs[1].(*ast.Ident)
+			if j == nil || k == nil {
+				return true
+			}
+			obj := func(id *ast.Ident) types.Object {
+				if o := info.Defs[id]; o != nil {
+					return o
+				}
+				return info.Uses[id]
+			}
+			if o := obj(j); o != nil {
+				alias[o] = true
+			}
+			okObj, okAssign = obj(k), as
+			return true
+		})
+		if okObj != nil {
+			// ok must have this single assignment
+			ast.Inspect(lit.Body, func(n ast.Node) bool {
+				switch a := n.(type) {
+				case *ast.AssignStmt:
+					for _, l := range a.Lhs {
+						if id, isID := l.(*ast.Ident); isID && (info.Defs[id] == okObj || info.Uses[id] == okObj) {
+							nOkAssign++
+						}
+					}
+				case *ast.UnaryExpr:
+					if id, isID := a.X.(*ast.Ident); isID && a.Op == token.AND && info.Uses[id] == okObj {
+						nOkAssign += 2
+					}
+				case *ast.IncDecStmt:
+				}
+				return true
+			})
+		}
+	}
+	// region of a node under the comma-ok dispatch: reachable only with ok
+	// false ("leaf"), only with ok true ("join"), or otherwise ""
+	var okBlock *cfg.Block
+	okNeg := false
+	nOkBlocks := 0
+	if okObj != nil {
+		for _, b := range g.Blocks {
+			if !b.Live || len(b.Succs) != 2 || len(b.Nodes) == 0 {
+				continue
+			}
+			e, isExpr := b.Nodes[len(b.Nodes)-1].(ast.Expr)
+			if !isExpr {
+				continue
+			}
+			neg := false
+			for {
+				switch x := e.(type) {
+				case *ast.ParenExpr:
+					e = x.X
+					continue
+				case *ast.UnaryExpr:
+					if x.Op == token.NOT {
+						neg = !neg
+						e = x.X
+						continue
+					}
+				}
+				break
+			}
+			if id, isID := e.(*ast.Ident); isID && info.Uses[id] == okObj {
+				okBlock, okNeg = b, neg
+				nOkBlocks++
+			}
+		}
+	}
+	reachableCut := func(cutTo *cfg.Block) map[*cfg.Block]bool {
+		seen := map[*cfg.Block]bool{}
+		var walk func(b *cfg.Block)
+		walk = func(b *cfg.Block) {
+			if seen[b] {
+				return
+			}
+			seen[b] = true
+			for i, s := range b.Succs {
+				if b == okBlock && s == cutTo && (i == 0) == (cutTo == okBlock.Succs[0]) {
+					continue
+				}
+				walk(s)
+			}
+		}
+		if len(g.Blocks) > 0 {
+			walk(g.Blocks[0])
+		}
+		return seen
+	}
+	var reachNoFalse, reachNoTrue map[*cfg.Block]bool
+	if okBlock != nil && nOkBlocks == 1 && nOkAssign == 1 && okBlock.Succs[0] != okBlock.Succs[1] {
+		tEdge, fEdge := okBlock.Succs[0], okBlock.Succs[1]
+		if okNeg {
+			tEdge, fEdge = fEdge, tEdge
+		}
+		reachNoFalse, reachNoTrue = reachableCut(fEdge), reachableCut(tEdge)
+	}
+	blockOf := func(n ast.Node) *cfg.Block {
+		for _, b := range g.Blocks {
+			for _, nd := range b.Nodes {
+				if nd.Pos() <= n.Pos() && n.End() <= nd.End() {
+					return b
+				}
+			}
+		}
+		return nil
+	}
+	_ = okAssign
 	// parent map
 	parents := map[ast.Node]ast.Node{}
 	var stack []ast.Node
@@ -275,6 +441,34 @@ func checkC19(ctx *Ctx) *Result {
 		}
 		return nil
 	}
+	// region: "leaf" / "join" / "" for a node, under either form of dispatch
+	region := func(n ast.Node) string {
+		if tswitch != nil {
+			cc := enclosingClause(n)
+			if cc == nil || parents[cc] != ast.Node(tswitch.Body) {
+				return ""
+			}
+			if cc.List == nil {
+				return "leaf"
+			}
+			return "join"
+		}
+		if reachNoFalse == nil {
+			return ""
+		}
+		// for a loop, the block of its range expression
+		b := blockOf(n)
+		if b == nil {
+			return ""
+		}
+		switch {
+		case !reachNoFalse[b] && reachNoTrue[b]:
+			return "leaf"
+		case !reachNoTrue[b] && reachNoFalse[b]:
+			return "join"
+		}
+		return ""
+	}
 	objOf := func(e ast.Expr) types.Object {
 		if id, ok := e.(*ast.Ident); ok {
 			if o := info.Uses[id]; o != nil {
@@ -293,16 +487,16 @@ func checkC19(ctx *Ctx) *Result {
 		}
 		arg := objOf(ys.Call.Args[0])
 		ranges := enclosingRanges(ys.Call)
-		cc := enclosingClause(ys.Call)
 		switch {
 		case arg != nil && alias[arg] && len(ranges) == 0:
 			// leaf: must sit in the clause that excludes joins
 			nLeaf++
 			good, detail := true, ""
-			if tswitch == nil || cc == nil || parents[cc] != ast.Node(tswitch.Body) {
-				good, detail = false, "the error itself is yielded outside the join/leaf type switch"
-			} else if cc.List != nil {
-				good, detail = false, "the error itself is yielded in a clause that is not the default (non-join) clause"
+			switch region(ys.Call) {
+			case "":
+				good, detail = false, "the error itself is yielded outside the join/leaf dispatch"
+			case "join":
+				good, detail = false, "the error itself is yielded where it is known to be a join, not in the default (non-join) case"
 			}
 			r.check(good, "R19.2", desc+" (leaf)", p.Pos(ys.Call.Pos()), detail, 1)
 		case len(ranges) == 2 && ranges[0] != nil && ranges[1] != nil:
@@ -330,8 +524,8 @@ func checkC19(ctx *Ctx) *Result {
 			} else {
 				good, detail = false, "the outer loop does not range over the join's own Unwrap()"
 			}
-			if cc == nil || tswitch == nil || parents[cc] != ast.Node(tswitch.Body) || cc.List == nil {
-				good, detail = false, "children are flattened outside the join clause of the type switch"
+			if region(outer.X) != "join" {
+				good, detail = false, "children are flattened outside the join case of the dispatch"
 			}
 			r.check(good, "R19.2", desc+" (join element)", p.Pos(ys.Call.Pos()), detail, 1)
 		default:
@@ -340,8 +534,12 @@ func checkC19(ctx *Ctx) *Result {
 	}
 	r.check(nLeaf == 1 && nJoin == 1, "R19.2", "one leaf yield and one join-element yield", p.Pos(lit.Pos()), fmt.Sprintf("%d leaf yields and %d join-element yields", nLeaf, nJoin), len(sites))
 	// dispatch: exactly a join clause (interface{ Unwrap() []error }) and a default
-	if tswitch == nil {
-		r.fail("R19.2", "join/leaf dispatch", p.Pos(lit.Pos()), "no type switch on the error being flattened")
+	if tswitch == nil && okObj != nil {
+		good := reachNoFalse != nil
+		r.check(good, "R19.2", "join/leaf dispatch", p.Pos(okAssign.Pos()),
+			fmt.Sprintf("the comma-ok assertion to interface{ Unwrap() []error } is not tested exactly once (tests: %d, assignments to its flag: %d)", nOkBlocks, nOkAssign), 2)
+	} else if tswitch == nil {
+		r.fail("R19.2", "join/leaf dispatch", p.Pos(lit.Pos()), "no type switch or comma-ok assertion on the error being flattened")
 	} else {
 		good, detail := true, ""
 		nDefault, nJoinCl := 0, 0
@@ -374,6 +572,15 @@ func checkC19(ctx *Ctx) *Result {
 			body, what = rs[0].Body, "loop body"
 		} else if cc := enclosingClause(ys.Call); cc != nil {
 			body, what = &ast.BlockStmt{List: cc.Body}, "clause"
+		} else {
+			for q := parents[ys.Call]; q != nil; q = parents[q] {
+				if bs, ok := q.(*ast.BlockStmt); ok {
+					if _, isIf := parents[bs].(*ast.IfStmt); isIf {
+						body, what = bs, "branch"
+						break
+					}
+				}
+			}
 		}
 		if body == nil {
 			continue
@@ -497,16 +704,8 @@ func yieldCounts(g *cfg.CFG, isYield func(*ast.CallExpr) bool, explicitReturn ma
 			}
 		}
 		if live == 0 {
-			// end of a path: either the normal end of the body or a return
-			isReturn := false
-			for _, nd := range b.Nodes {
-				if explicitReturn[nd] {
-					isReturn = true
-				}
-			}
-			if isReturn && n >= 1 {
-				return // consumer stopped after a yield
-			}
+			// end of a path: the normal end of the body or a return; either way
+			// the pass has performed n yields
 			if n < min {
 				min = n
 			}
